@@ -108,6 +108,8 @@ SHIMS = {
     "bisectingKmeans.c": "shim_kmeans.c",
     "aln_controller.c": "shim_controller.c",
     "bpm.c": "shim_bpm.c",
+    "weave_alignment.c": "shim_weave.c",
+    "sequence_distance.c": "shim_seqdist.c",
 }
 # CLI sources reached through shims (src/run_kalign.c is #included by harness/shim_run_kalign.c)
 
@@ -117,13 +119,13 @@ OPS_DEPS = {
     "ops_io.c": ["shim_msa_io.c"],
     "ops_dp.c": ["shim_controller.c", "shim_aln_run.c"],
     "ops_param.c": ["shim_run_kalign.c"],
-    "ops_bpm.c": ["shim_kmeans.c", "shim_bpm.c"],
+    "ops_bpm.c": ["shim_kmeans.c", "shim_bpm.c", "shim_seqdist.c"],
     "ops_kmeans.c": ["shim_kmeans.c", "shim_kmeans_serial.c"],
     "ops_pipe.c": [],
     "ops_pipefile.c": ["shim_run_kalign.c"],
     "ops_cli.c": ["shim_run_kalign.c"],
     "ops_f32.c": [],
-    "ops_weave.c": [],
+    "ops_weave.c": ["shim_weave.c"],
     "ops_ref.c": [],
     "ops_sys.c": [],
 }
@@ -228,8 +230,41 @@ def build_harness(variant="asan", hooks=True, extra_defs=()):
         DEGRADED[exe] = dict(broken=sorted(badh), stubbed=sorted(stub_tables), log="\n".join("%s:\n%s" % (s_, e[-1500:]) for s_, e in bad))
     p = sh([comp] + [j[1] for j in jobs] + ["-o", exe] + ldflags, timeout=300)
     if p.returncode != 0:
-        DEGRADED.pop(exe, None)
-        raise BuildError("link failed:\n" + p.stderr.decode(errors="replace")[-3000:])
+        # a library function an op file calls directly may have become `static` (or was renamed): stub the tables of the op files with
+        # undefined references and link again; the checks that use those ops then report the broken tie, the others are not affected
+        err = p.stderr.decode(errors="replace")
+        badobjs = set(re.findall(r"h_(ops_\w+)\.o: in function", err)) if "undefined reference" in err else set()
+        badshims = {b + ".c" for b in re.findall(r"h_(shim_\w+)\.o: in function", err)} if "undefined reference" in err else set()
+        badops = {b + ".c" for b in badobjs if b + ".c" in OPS_DEPS}
+        badops |= {o for o, deps in OPS_DEPS.items() if any(d in badshims for d in deps)}
+        if not (badops or badshims) or "ops_sys.c" in badops:
+            DEGRADED.pop(exe, None)
+            raise BuildError("link failed:\n" + err[-3000:])
+        rev_ = {v: k for k, v in SHIMS.items()}
+        extra_objs = []
+        for sh_ in sorted(badshims):
+            if sh_ in rev_:
+                src_ = os.path.join(REPO, "lib", "src", rev_[sh_])
+                if os.path.exists(src_):
+                    obj_ = os.path.join(out, "lib_" + rev_[sh_][:-2] + ".o")
+                    r_ = sh([comp] + common + ["-c", src_, "-o", obj_], timeout=300)
+                    if r_.returncode == 0:
+                        extra_objs.append(obj_)
+        badops |= badshims
+        prev = DEGRADED.get(exe, dict(broken=[], stubbed=[], log=""))
+        stubbed = set(prev["stubbed"]) | {o for o in badops if o.startswith("ops_")}
+        stub = os.path.join(out, "stub_tables.c")
+        with open(stub, "w") as f:
+            f.write('#include "kvh.h"\n')
+            for opsf in sorted(stubbed):
+                f.write("struct kv_op kv_%s[] = { {NULL, NULL} };\n" % opsf[:-2])
+        q = sh([comp] + common + ["-c", stub, "-o", os.path.join(out, "h_stub_tables.o")], timeout=300)
+        keep = [j[1] for j in jobs if os.path.basename(j[1]) not in {"h_" + o[:-2] + ".o" for o in badops} and os.path.basename(j[1]) != "h_stub_tables.o"]
+        p = sh([comp] + keep + extra_objs + [os.path.join(out, "h_stub_tables.o"), "-o", exe] + ldflags, timeout=300)
+        if q.returncode != 0 or p.returncode != 0:
+            DEGRADED.pop(exe, None)
+            raise BuildError("link failed:\n" + err[-2000:] + "\nrelink without %s failed:\n" % sorted(badops) + p.stderr.decode(errors="replace")[-1500:])
+        DEGRADED[exe] = dict(broken=sorted(set(prev["broken"]) | badops), stubbed=sorted(stubbed), log=(prev["log"] + "\n" + err)[-6000:])
     if CURRENT_CTX is not None and exe in DEGRADED:
         CURRENT_CTX._deg_noted = getattr(CURRENT_CTX, "_deg_noted", set()) | {exe}
         note_degraded(CURRENT_CTX, exe)
@@ -381,6 +416,10 @@ def audit_axioms(prop):
 # ----------------------------------------------------------------------------------------------
 
 def run_lines(exe, lines, env=None, timeout=600):
+    for l_ in lines:
+        t_ = l_.split(" ", 1)[0]
+        if t_:
+            OPS_USED.add(t_)
     data = ("\n".join(lines) + "\n").encode()
     p = sh([exe], input=data, env=env, timeout=timeout)
     return p.returncode, p.stdout.decode(errors="replace").split("\n"), p.stderr.decode(errors="replace")
@@ -475,6 +514,7 @@ class Ctx:
         self.violations.append((what, replay, no_input))
 
     def finish(self, level="proof", checker_cmd="", explanation=""):
+        degraded_verdict(self)
         if (self.violations and all(v[2] for v in self.violations) and not self.escalated and self.tier == "quick"
                 and os.environ.get("VERIF_NO_ESCALATE") != "1"):
             # a proof obligation or a correspondence broke but the normal budget found no failing input:
@@ -576,9 +616,42 @@ def note_degraded(ctx, exe):
     """if the harness had to be built without some shims, the unit correspondence through them is broken: record it"""
     d = DEGRADED.get(exe)
     if d:
-        ctx.violation("harness shims no longer compile against the current sources (%s): unit correspondence of %s is broken" % (
-            ", ".join(d["broken"]), ", ".join(d["stubbed"])), dict(kind="harness-build", broken=d["broken"], log=d["log"][-4000:]), no_input=True)
+        ctx.degraded = d
+        ctx.notes.append("harness built in degraded form: %s do not compile/link against the current sources; op tables %s are stubbed" % (
+            ", ".join(d["broken"]), ", ".join(d["stubbed"])))
     return d
+
+
+def ops_of_table(opsfile):
+    """op names registered in harness/<opsfile> (entries `{"name", fn}` of its kv_op table)"""
+    try:
+        txt = open(os.path.join(HARNESS, opsfile)).read()
+    except OSError:
+        return set()
+    return set(re.findall(r'\{\s*"(\w+)"\s*,\s*\w+\s*\}', txt))
+
+
+def degraded_verdict(ctx):
+    """a stubbed op table is a broken tie only for a check that sent ops of that table"""
+    d = getattr(ctx, "degraded", None)
+    if not d or getattr(ctx, "_deg_judged", False):
+        return
+    ctx._deg_judged = True
+    used = set(OPS_USED)
+    hit = {}
+    for t in d["stubbed"]:
+        u = sorted(ops_of_table(t) & used)
+        if u:
+            hit[t] = u
+    if hit:
+        ctx.violation("harness shims no longer compile against the current sources (%s): the unit correspondence through %s is broken" % (
+            ", ".join(d["broken"]), ", ".join("%s [%s]" % (t, ",".join(u[:6])) for t, u in sorted(hit.items()))),
+            dict(kind="harness-build", broken=d["broken"], log=d["log"][-4000:]), no_input=True)
+    elif not hit:
+        ctx.notes.append("stubbed op tables %s are not used by this check: not a broken tie here" % ", ".join(d["stubbed"]))
+
+
+OPS_USED = set()
 
 
 def gen_ops(script, seed, *args, prefixes=None, outfile=None):
